@@ -104,9 +104,7 @@ Proof.
       pose proof (inv_into_inline ow (abs sm) (inl lg) Hsq ltac:(rewrite abs_length; lia) L1 L2) as [K1 K2].
       rewrite abs_length in K1. exact K1.
     + constructor; unfold store_ok, clean, inl_ok, qsize; cbn [st arr cnt head tail inl length]; try lia.
-      * reflexivity.
-      * intros _ i Hi. lia.
-      * intros _. exact (inv_inl _ _ lg Il Hl).
+      intros _. exact (inv_inl _ _ lg Il Hl).
   - apply abs_congr; [reflexivity|]. intros i Hi. pose proof (inv_cnt _ _ lg Il).
     unfold getu, intern, qsize. cbn [arr head]. unfold qsize in *. replace (0 <? length (arr lg)) with true by lia.
     reflexivity.
@@ -157,7 +155,7 @@ Proof.
     try (cbn [fst snd];
          destruct (inv_transplant ow b (inl a) Ib) as [J1 J2]; [intros _; apply (inv_inl _ _ a Ia); congruence|];
          destruct (inv_transplant ow a (inl b) Ia) as [K1 K2]; [intros _; apply (inv_inl _ _ b Ib); congruence|];
-         tauto).
+         cbv zeta in J1, J2, K1, K2; rewrite Eb in J1, J2; rewrite Ea in K1, K2; tauto).
   (* both in their in-object arrays *)
   destruct (cnt b <? cnt a) eqn:E.
   - replace (Nat.min (cnt a) (cnt b)) with (cnt b) by lia. cbn [fst snd].
@@ -221,7 +219,7 @@ Proof.
   split.
   - intros H. assert (C : cnt a = cnt b) by (rewrite <- (abs_length a), H; apply abs_length).
     split; [exact C|]. intros i Hi. rewrite <- (nth_abs a i 0%Z), H by exact Hi. apply nth_abs. lia.
-  - intros [C H]. apply abs_congr; [lia|]. intros i Hi. symmetry. apply H. lia.
+  - intros [C H]. apply abs_congr; [lia|]. intros i Hi. apply H. lia.
 Qed.
 
 Lemma queues_eq_spec a b : queues_eq a b = zlist_eqb (abs a) (abs b).
@@ -308,7 +306,7 @@ Proof.
   set (bb := op2_this o).
   pose proof (sel_inv2 ow bb p I) as Is. pose proof (sel_abs2 bb p) as As.
   destruct (sel bb p) as [t r]. unfold inv2 in Is. cbn [fst snd] in Is. destruct Is as [It Ir].
-  rewrite <- As. unfold abs2 at 1 2. cbn [fst snd].
+  rewrite <- As. change (abs2 (t, r)) with (abs t, abs r). cbv beta iota.
   (* every case ends with: the new pair is [sel bb (t', r')], both invariants hold, abstractions match *)
   assert (F : forall t' r' lt lr (x y : out), inv ow sq t' -> inv ow sq r' -> abs t' = lt -> abs r' = lr -> x = y ->
               inv2 ow (fst (sel bb (t', r'), x)) /\
@@ -331,8 +329,7 @@ Proof.
   - (* operator= *)
     destruct (assign_spec ow t r It). apply F; auto.
   - (* operator== *)
-    subst bb. cbn [sel] in *. cbn [fst snd]. split; [exact I|]. split; [reflexivity|].
-    injection As as <- <-. rewrite queues_eq_spec. reflexivity.
+    cbn [fst snd]. split; [exact I|]. split; [reflexivity|]. rewrite queues_eq_spec. reflexivity.
   - (* StartsWith *)
     cbn [fst snd]. split; [exact I|]. split; [reflexivity|]. rewrite starts_with_spec. reflexivity.
   - (* EndsWith *)
